@@ -57,6 +57,15 @@ class _float(float):
     def __hash__(self):
         return super().__hash__() + 1
 
+    # The manipulated hash alone does not keep -1.0 and -2.0 apart from -1 and -2
+    # (CPython reserves the hash value -1 and maps it to -2), so equality with
+    # anything but another _float must fail as well.
+    def __eq__(self, other):
+        return type(other) is _float and float(self) == float(other)
+
+    def __ne__(self, other):
+        return not self == other
+
 
 class _bool(int):
     # Booleans are equal to (and hash like) the integers 0 and 1 in Python. Analogous to
@@ -64,6 +73,12 @@ class _bool(int):
     # same numerical value are stored separately within a search index (dict).
     def __hash__(self):
         return super().__hash__() + 2
+
+    def __eq__(self, other):
+        return type(other) is _bool and int(self) == int(other)
+
+    def __ne__(self, other):
+        return not self == other
 
 
 def _wrap_key(key):
